@@ -133,6 +133,8 @@ def part(V, tr, sd):
     rnd = random.Random(sd + 23)
     mc = tlc.run("MC_MultiCtl", workers=core.nworkers(), timeout=3000, check=True)
     narrow = tlc.run("MC_MultiCtl", cfg="MC_MultiCtl_first.cfg", workers=1, timeout=3000, check=False)
+    # thorough tier: the design-level invariants also for four controllers on three levels (273069 states, ~2 min; not replayed)
+    deep = tlc.run("MC_MultiCtl", cfg="MC_MultiCtl_four.cfg", workers=core.nworkers(), timeout=3000, check=True) if tr != "quick" else None
     cfgs = configs()
     three = [c for c in cfgs if len(c) == 3]
     small = [c for c in cfgs if len(c) < 3]
@@ -151,7 +153,8 @@ def part(V, tr, sd):
         for cl in f["clauses"]:
             cc[cl[0]] += 1
             V.report(cl[0], "ctl:%s" % cl[1], by_id[f["id"]], text="case=%s ctrls=%s" % (f["id"], json.dumps(by_id[f["id"]]["ctrls"])[:200]))
-    return {"control_loop_model_states": mc.distinct, "control_loop_narrow_relevance_violates": narrow.invariant_violated,
+    extra = {"control_loop_model_states_four_controllers_three_levels": deep.distinct} if deep is not None else {}
+    return {**extra, "control_loop_model_states": mc.distinct, "control_loop_narrow_relevance_violates": narrow.invariant_violated,
             "control_loop_configurations": len(configs()), "control_loop_runs": len(cases),
             "control_loop_runs_three_controllers": sum(1 for c in cases if len(c["ctrls"]) == 3),
             "control_loop_failing_clause_counts": dict(cc)}
